@@ -408,11 +408,12 @@ NotAcceptingInf ==
 NotRejecting == R10_PowerLevels(v, st, ev)
 
 (***************************************************************************)
-(* All of the above in ONE Apalache run (the preprocessing passes dominate *)
-(* the run time): --cinit=CInitAll lets the solver choose Fault, every     *)
-(* obligation is guarded by the Fault it is about, --max-error keeps the   *)
-(* checker going after an (expected) violation.  H_ must hold, X_ must be  *)
-(* violated.  checks/c08_lemma.py reads the verdict of each by position.   *)
+(* All of the above in few Apalache runs (the preprocessing passes         *)
+(* dominate the run time): --cinit=CInitAll lets the solver choose Fault,  *)
+(* every obligation is guarded by the Fault it is about, --max-error keeps *)
+(* the checker going after an (expected) violation.  H_ must hold, X_ must *)
+(* be violated.  checks/c08_lemma.py passes the H_ list to one run and the *)
+(* X_ list to another and reads the verdict of each by position.           *)
 (***************************************************************************)
 \* Fault values that leave the rule as it is: "none" and one name per non-vacuity witness
 Benign == {"none", "w_accepting", "w_first", "w_inf", "w_rejecting", "w_two53"}
@@ -510,8 +511,8 @@ InfIsTwo53 ==
     (\A i \in 1..NSlots : L[i] => X[i] <= 2^53 - 1) =>
        /\ R10_At(v, st, ev, InfLevel) = R10_At(v, st, ev, Fin(2^53))
        /\ NoEsc_At(v, st, ev, InfLevel) = NoEsc_At(v, st, ev, Fin(2^53))
-========================================================================\* (an obligation of the combined run, see H_Lemma)
+\* (an obligation of the combined run, see H_Lemma)
 H_InfIsTwo53 == Fault \in Benign => InfIsTwo53
 \* ... and the bound is needed: with a level above 2^53 the two differ (must be refuted)
 X_InfNoBound == Fault = "w_two53" => (R10_At(v, st, ev, InfLevel) = R10_At(v, st, ev, Fin(2^53)))
-=====
+=============================================================================
